@@ -34,8 +34,17 @@ type c14set struct {
 	bindings []c14binding
 }
 
-func c14rules() string {
-	return "  rules:\n  - operations: [\"*\"]\n    apiGroups: [\"\"]\n    apiVersions: [\"v1\"]\n    resources: [\"configmaps\"]\n"
+// c14rules: every hook watches a resource of its own, so that the rules the manager holds for a
+// path tell whose webhook is registered there.
+func c14rules(hook string) string {
+	return "  rules:\n  - operations: [\"*\"]\n    apiGroups: [\"\"]\n    apiVersions: [\"v1\"]\n    resources: [\"" + c14resource(hook) + "\"]\n"
+}
+
+func c14resource(hook string) string {
+	if hook == "b.sh" {
+		return "secrets"
+	}
+	return "configmaps"
 }
 
 func c14config(bs []c14binding, hook string) string {
@@ -50,7 +59,7 @@ func c14config(bs []c14binding, hook string) string {
 				s += "kubernetes" + kind + ":\n"
 				first = false
 			}
-			s += "- name: " + b.name + "\n" + c14rules()
+			s += "- name: " + b.name + "\n" + c14rules(hook)
 		}
 	}
 	if s == "configVersion: v1\n" {
@@ -225,15 +234,21 @@ func c14run(set c14set, path, bodyKind string, oc c14outcome) (sig, what, outcom
 	// those rules is served by that binding
 	if okReg && len(registrants) > 1 {
 		id := strings.TrimPrefix(path, "/hooks/")
-		regName := ""
+		regName, regResource := "", ""
 		for _, res := range fx.op.AdmissionWebhookManager.ValidatingResources {
 			if c := res.Get(id); c != nil && c.ValidatingWebhook != nil {
 				regName = c.ValidatingWebhook.Name
+				if len(c.ValidatingWebhook.Rules) > 0 && len(c.ValidatingWebhook.Rules[0].Resources) > 0 {
+					regResource = c.ValidatingWebhook.Rules[0].Resources[0]
+				}
 			}
 		}
 		for _, res := range fx.op.AdmissionWebhookManager.MutatingResources {
 			if c := res.Get(id); c != nil && c.MutatingWebhook != nil && regName == "" {
 				regName = c.MutatingWebhook.Name
+				if len(c.MutatingWebhook.Rules) > 0 && len(c.MutatingWebhook.Rules[0].Resources) > 0 {
+					regResource = c.MutatingWebhook.Rules[0].Resources[0]
+				}
 			}
 		}
 		if regName == "" {
@@ -241,6 +256,9 @@ func c14run(set c14set, path, bodyKind string, oc c14outcome) (sig, what, outcom
 		}
 		if regName != "" && run.Contexts[0]["binding"] != regName {
 			return "C14 served-by-another-binding-than-registered", fmt.Sprintf("path %s: the webhook configuration holds the rules of binding %q, the request was served by %v of %s", path, regName, run.Contexts[0]["binding"], run.Hook), ""
+		}
+		if regResource != "" && regResource != c14resource(run.Hook) {
+			return "C14 served-by-another-hook-than-registered", fmt.Sprintf("path %s: the webhook configuration holds the rules of a hook watching %s (binding %q), the request was served by %s, which watches %s", path, regResource, regName, run.Hook, c14resource(run.Hook)), ""
 		}
 	}
 	if !okReg {
@@ -277,6 +295,9 @@ func TestVerifC14(t *testing.T) {
 	sets := []c14set{
 		{"one-validating", []c14binding{{"a.sh", "val-a.example.com", "Validating"}}},
 		{"mixed", []c14binding{{"a.sh", "val-a.example.com", "Validating"}, {"a.sh", "val2.example.com", "Validating"}, {"a.sh", "mut-a.example.com", "Mutating"}, {"b.sh", "val-b.example.com", "Validating"}}},
+		// one validating name in two hooks, the first of which has a mutating binding too (it is enabled twice)
+		{"same-name+mutating", []c14binding{{"a.sh", "pol.example.com", "Validating"}, {"a.sh", "mut-a.example.com", "Mutating"}, {"b.sh", "pol.example.com", "Validating"}}},
+		{"same-name", []c14binding{{"a.sh", "pol.example.com", "Validating"}, {"b.sh", "pol.example.com", "Validating"}, {"b.sh", "mut-b.example.com", "Mutating"}}},
 		{"url-collision", []c14binding{{"a.sh", "val-a.example.com", "Validating"}, {"b.sh", "val.a.example.com", "Validating"}, {"b.sh", "mut-b.example.com", "Mutating"}}},
 	}
 	outcomes := c14outcomes()
